@@ -88,13 +88,14 @@ func c17GenPoolCases(r *vrt.Run, emit func(c17PoolCase)) {
 			thens = []string{"query", "round+query"}
 		}
 		for _, nw := range []string{string(NetworkTCP), string(NetworkAny), string(NetworkUDP)} {
-			for _, k := range vrt.Pick(r, []int{2}, []int{2, 3}) {
+			for _, k := range vrt.Pick(r, []int{1, 2}, []int{1, 2, 3}) {
 				for _, d := range deaths {
 					for mask := 0; mask < 1<<k; mask++ {
 						if mask == 0 && d != deaths[0] {
 							continue
 						}
-						for _, fresh := range []string{bMatch, bWrongID} {
+						// refuse: the upstream no longer listens.
+						for _, fresh := range []string{bMatch, bWrongID, bRefuse} {
 							for _, th := range thens {
 								emit(c17PoolCase{Level: lvl, Network: nw, Pooled: k, Death: d, Dead: mask, Fresh: fresh, Then: th})
 							}
@@ -212,7 +213,15 @@ func c17RunPoolCase(r *vrt.Run, c c17PoolCase) (fs []vrt.Finding) {
 			what := fmt.Sprintf("%+v: after %d overlapping exchanges left %d idle %s connections and those in the mask died (%s), exchange %d used connections %v and returned nw=%s err=%v resp=%s",
 				c, k, k, pt, c.Death, e-k, pathOf(mine), nw, err, vdns.Canon(resp, true))
 			var ne net.Error
+			// gone: every pooled connection is dead and new dials are
+			// refused: a network failure of the upstream, nothing else.
+			gone := c.Fresh == bRefuse && c.Dead == 1<<k-1
 			switch {
+			case gone && (err == nil || !errors.As(err, &ne)):
+				return vrt.F("upstream/upstream-gone-non-network-error",
+					"%s: the pooled connections are dead and the upstream refuses new connections — a network failure — but the exchange does not fail with a network error, so the handler would not try a fallback", what)
+			case gone:
+				r.Class("pool/up/gone-neterr")
 			case err == nil:
 				if !c17Matches(req, resp) {
 					return vrt.F("upstream/mismatched-reply-accepted", "%s", what)
@@ -294,6 +303,7 @@ func c17RunPoolCase(r *vrt.Run, c c17PoolCase) (fs []vrt.Finding) {
 	// From here on the main upstream accepts connections and (Fresh ==
 	// match) answers every request on a new connection; the fallback is fine.
 	healthy := c.Fresh == bMatch
+	gone := c.Fresh == bRefuse && c.Dead == 1<<k-1
 	if c.Then == "round+query" {
 		exch = k
 		_ = h.Refresh(context.Background())
@@ -316,6 +326,22 @@ func c17RunPoolCase(r *vrt.Run, c c17PoolCase) (fs []vrt.Finding) {
 	}
 	if fb.n > 1 {
 		return vrt.F("e2e/fallback-tried-more-than-once", "%s", what)
+	}
+	if gone {
+		// The main upstream went away (dead connections, refused dials): a
+		// network failure, the healthy fallback answers.  After a round the
+		// main upstream is out and must not even be tried.
+		if c.Then == "round+query" && main.n > 0 {
+			return vrt.F("e2e/excluded-main-used", "%s: the probe of the main upstream failed, backoff 10s not elapsed", what)
+		}
+		if fb.n != 1 || err != nil || got == nil || len(sf) == 0 {
+			return vrt.F("e2e/no-fallback-after-network-error",
+				"%s: the main upstream is gone (its pooled connections are dead and it refuses new ones), the fallback is healthy, so the client must be answered by the fallback", what)
+		}
+		r.Class("pool/e2e/main-gone-fallback-answer")
+		r.State(fmt.Sprintf("pool %+v", c))
+
+		return nil
 	}
 	if err != nil && healthy {
 		// Main and fallback are healthy: the main upstream replies (on a new
